@@ -97,10 +97,10 @@ fn main() {
                 let cs = case_seed(seed, &prop, idx);
                 if let Some(p) = &progress {
                     if let Ok(mut f) = std::fs::File::create(p) {
-                        let _ = writeln!(f, "{prop} gen {cs}");
+                        let _ = writeln!(f, "{prop} gen {cs} {idx}");
                     }
                 }
-                monitors::run_case(&prop, cs, &mut acc);
+                monitors::run_case(&prop, idx, cs, &mut acc);
                 idx += nshards;
                 done += 1;
             }
@@ -134,7 +134,8 @@ fn main() {
                 monitors::run_exhaustive(&prop, &tier, &mut acc);
             } else {
                 let cs: u64 = a["case-seed"].parse().unwrap();
-                monitors::run_case(&prop, cs, &mut acc);
+                let index: u64 = a.get("index").map(|s| s.parse().unwrap()).unwrap_or(u64::MAX);
+                monitors::run_case(&prop, index, cs, &mut acc);
             }
             println!("{}", serde_json::to_string_pretty(&acc.report(json!(null))).unwrap());
             std::process::exit(if acc.violation_count > 0 { 1 } else { 0 });
